@@ -402,6 +402,9 @@ def check_C17(lines, obs):
     """after every compute: the results equal those of a freshly built stock with the same inputs"""
     prev = None
     for ln, ob in zip(lines, obs):
+        if ln == "note recompute_equals_fresh_at_low_survival" and ob != "ok":
+            return fail(ln, "results of a recompute equal those of a freshly built stock with the same parameters and driver "
+                            "(also where a cohort does not survive its first interval)", "the fresh results", ob)
         if ln == "h_compute":
             prev = (ln, ob)
         elif ln.startswith("note fresh ") and prev is not None:
